@@ -35,6 +35,7 @@ class EqvCase:
     sels: list                           # [(kind, sel, gsel)]
     direct: bool = False                 # build the simulations by hand instead of through the builder
     member_seed: int = 0                 # order of the member lists inside the households of the document
+    holes: list = field(default_factory=list)   # [(input number, [entity indices that carry NO value in the document])]
 
 
 # --------------------------------------------------------------------------------------
@@ -91,15 +92,19 @@ def document(e: EqvCase, sel, gsel) -> dict:
         members = [e.pids[i] for i in range(c.nP) if c.mem[i] == g]
         rng.shuffle(members)
         households[e.gids[g]] = {"members": members} if members or rng.random() < 0.5 else {}
-    for v, tok, vals in c.inputs:
+    holes = {k: set(idx) for k, idx in e.holes}
+    for k, (v, tok, vals) in enumerate(c.inputs):
         var = c.vars[v]
         key = str(parse_period_token(tok))
+        skip = holes.get(k, ())
         if var.entity == 0:
             for i in sel:
-                persons[e.pids[i]].setdefault(f"v{v}", {})[key] = _doc_value(var, vals[i])
+                if i not in skip:
+                    persons[e.pids[i]].setdefault(f"v{v}", {})[key] = _doc_value(var, vals[i])
         else:
             for g in gsel:
-                households[e.gids[g]].setdefault(f"v{v}", {})[key] = _doc_value(var, vals[g])
+                if g not in skip:
+                    households[e.gids[g]].setdefault(f"v{v}", {})[key] = _doc_value(var, vals[g])
     return {"persons": persons, "households": households}
 
 
@@ -200,6 +205,11 @@ def oracle(case: Case, out: str):
                 return ("length", f"request #{k} {r}: the merged simulation returned {merged[k]}, too short for its population")
             if got[k] != want:
                 cls = "value" if (got[k].startswith("ok:") and want.startswith("ok:")) else "error-class"
+                if e.holes:
+                    return ("uneven-input-slot",
+                            f"request #{k} {r}: in the merged document only some entities carry a value for an input slot; the builder "
+                            f"gives the others the default AS AN INPUT: merged simulation returned {merged[k]}, read at persons={sel} "
+                            f"households={gsel} that is {want}; the part simulated alone (no input, formula applies) returned {got[k]}")
                 return (f"{kind}-{cls}",
                         f"request #{k} {r}: merged simulation returned {merged[k]}; read at the {kind} selection "
                         f"persons={sel} households={gsel} that is {want}; the part simulated alone returned {got[k]}")
@@ -328,7 +338,7 @@ def gen_eqv(rng: random.Random, direct=False, faults=True, bad_rate=0.0) -> tupl
 
 
 def generate(rng: random.Random, tier: str):
-    n = 900 if tier == "quick" else 16000
+    n = 6000 if tier == "quick" else 120000
     out = []
     for i in range(n):
         direct = rng.random() < 0.2
@@ -336,7 +346,7 @@ def generate(rng: random.Random, tier: str):
         out.append(_case(e, tags))
     # malformed stream: selections that are not situations (a kept household names a person that is
     # not kept) — the builder must refuse them, the model answers ERR for them
-    for i in range(max(10, n // 40)):
+    for i in range(max(10, n // 60)):
         e, tags = gen_eqv(rng, direct=rng.random() < 0.2, faults=False)
         c = e.case
         cands = [(sel, gsel) for kind, sel, gsel in e.sels if kind == "merge" and len(sel) >= 2]
@@ -349,7 +359,7 @@ def generate(rng: random.Random, tier: str):
     return out
 
 
-def corpus():
+def corpus_base():
     """hand-made cases that run first: the example of Props/C11.lean (a household sum and its
     projection, two situations interleaved); a situation whose last household has no member; a
     single person merged with a large household; an armed fault; calculate_add"""
@@ -382,11 +392,81 @@ def corpus():
     return out
 
 
+def _uneven_recorded() -> bool:
+    """the document shape of finding F-C11 is exercised once the finding is recorded in
+    known_findings.json (or on demand, OFV_C11_UNEVEN=1)"""
+    import os
+    from .. import core
+    if os.environ.get("OFV_C11_UNEVEN") == "1":
+        return True
+    return any(k.get("property") == "C11" and k.get("id") == "F-C11" for k in core.load_known())
+
+
+def uneven_case() -> Case:
+    """F-C11: situation A gives a salary for 2018-01, situation B does not (its salary is to be
+    computed); in the merged document B's person silently receives the default as an input"""
+    M = rs.MONTHS
+    v0 = rs.Var(entity=0, vtype="float", unit="month", dflt=0, formulas=[(1, ("c", 1000))])
+    c = rs.SysCase(2, 2, [0, 1], 1, [v0], [(0, M[1], [50, 0])], [("calc", 0, M[1])])
+    e = EqvCase(c, ["a", "b"], ["ha", "hb"], [("merge", [0], [0]), ("merge", [1], [1])], holes=[(0, [1])])
+    return _case(e, ("corpus", "uneven-input-slot"))
+
+
+def _corpus_all():
+    out = list(corpus_base())
+    if _uneven_recorded():
+        out.append(uneven_case())
+    return out
+
+
+def enumerate_thorough():
+    """complete enumeration: every membership map of 1-4 persons into 1-3 households (households
+    without member included), a fixed rule system that sends every person's value to every other
+    member of its household and back; for each population EVERY union of households with at least
+    one person as a part (merged order) and EVERY reordering of persons x households"""
+    import itertools
+    M = rs.MONTHS
+    v0 = rs.Var(entity=0, vtype="int", unit="month", dflt=7)
+    v1 = rs.Var(entity=1, vtype="int", unit="month", dflt=3)
+    v2 = rs.Var(entity=1, vtype="int", unit="month", dflt=0, formulas=[(1, ("o1", 1, ("v", 0, "same", False)))])
+    v3 = rs.Var(entity=0, vtype="int", unit="month", dflt=0,
+                formulas=[(1, ("o2", 1, ("o1", 2, ("v", 2, "same", False)), ("v", 0, "same", False)))])          # what the others have
+    v4 = rs.Var(entity=0, vtype="int", unit="month", dflt=0,
+                formulas=[(1, ("o2", 0, ("o1", 2, ("v", 1, "same", False)), ("v", 0, "same", False)))])
+    v5 = rs.Var(entity=1, vtype="int", unit="month", dflt=0,
+                formulas=[(1, ("o2", 0, ("o1", 1, ("o2", 4, ("v", 0, "same", False), ("v", 3, "same", False))), ("v", 1, "same", False)))])
+    reqs = [("calc", 2, M[1]), ("calc", 3, M[1]), ("calc", 4, M[1]), ("calc", 5, M[1]), ("calc", 2, M[0]), ("calc", 5, M[0])]
+    out = []
+    for nP in range(1, 5):
+        for nG in range(1, 4):
+            for mem in itertools.product(range(nG), repeat=nP):
+                mem = list(mem)
+                c = rs.SysCase(nP, nG, mem, 1, [v0, v1, v2, v3, v4, v5],
+                               [(0, M[1], [1, 2, 4, 8][:nP]), (1, M[1], [100, 200, 300][:nG])], reqs)
+                sels = []
+                for r in range(1, nG + 1):
+                    for gs in itertools.combinations(range(nG), r):
+                        ps = [i for i in range(nP) if mem[i] in gs]
+                        if ps and (len(ps) < nP or len(gs) < nG):
+                            sels.append(("merge", ps, list(gs)))
+                for pp in itertools.permutations(range(nP)):
+                    for gp in itertools.permutations(range(nG)):
+                        if list(pp) != list(range(nP)) or list(gp) != list(range(nG)):
+                            sels.append(("permute", list(pp), list(gp)))
+                e = EqvCase(c, [f"p{i}" for i in range(nP)], [f"h{g}" for g in range(nG)], sels, member_seed=nP * 100 + nG)
+                out.append(_case(e, ("enum", f"persons={nP}", f"households={nG}")))
+    return out
+
+
 PROP = Prop(
     pid="C11",
     lean_targets=["OFCore.Props.C11"],
     driver="ofdrv_eqv",
-    generate=generate, impl=impl, oracle=oracle, nontrivial=nontrivial, corpus=corpus, canon_equal=canon_equal,
+    generate=generate, impl=impl, oracle=oracle, nontrivial=nontrivial, corpus=_corpus_all, canon_equal=canon_equal,
+    enumerate_thorough=enumerate_thorough,
+    exhaustive_note=("thorough tier: all 154 membership maps of 1-4 persons into 1-3 households (empty households included) x every union of "
+                     "households as a part x every reordering of persons and of households (up to 143 per population), on a fixed rule system "
+                     "(household sum, sum of the others, projection of a household input, count of a condition on the projection)"),
     rule=("rule systems of the C01 generator (ranked stream): 3-9 variables over person + household, every value type, definition periods "
           "month/year/day/eternity, 0-3 dated formulas each, optional end, neutralised variables, expression trees of depth <= 3 over "
           "add/sub/min/max/comparisons/where/scaling/negation, sums over members, projections, period transforms and the ADD option, "
